@@ -289,6 +289,55 @@ func ruleR09_8(w *World, r *Report) {
 	}
 	check(locals, true, "as local")
 	check(remotes, false, "as remote")
+	// and no recorded operation is passed over: every way out of Replay leads through one of the two re-executions
+	// (the header of a unit and the other operations without an effect consume their identifier in executeLocalBase)
+	barrier := map[ssa.Instruction]bool{}
+	for _, c := range append(append([]ssa.CallInstruction{}, locals...), remotes...) {
+		barrier[c.(ssa.Instruction)] = true
+	}
+	bad := ""
+	for _, ret := range exitsWithout(fn, barrier) {
+		bad = u.Pos(ret.Pos())
+	}
+	r.Check(bad == "", "BaseDatatype.Replay/every operation re-executed", u.Pos(fn.Pos()), "no exit before the re-execution", "Replay returns at "+bad+" without re-executing the operation: a recorded operation that is skipped (e.g. the header of a unit) does not take its sequence number and Lamport value again, the next local operation after a rollback reuses an identifier and the server drops it as a duplicate")
+}
+
+// exitsWithout lists the returns of fn that can be reached from its entry without executing one of the barrier
+// instructions (block-wise: a barrier anywhere in a block guards what follows the block, and the block's own return).
+func exitsWithout(fn *ssa.Function, barrier map[ssa.Instruction]bool) []*ssa.Return {
+	if fn == nil || len(fn.Blocks) == 0 {
+		return nil
+	}
+	hasBarrier := func(b *ssa.BasicBlock) bool {
+		for _, in := range b.Instrs {
+			if barrier[in] {
+				return true
+			}
+		}
+		return false
+	}
+	var out []*ssa.Return
+	seen := map[*ssa.BasicBlock]bool{}
+	var walk func(b *ssa.BasicBlock)
+	walk = func(b *ssa.BasicBlock) {
+		if seen[b] {
+			return
+		}
+		seen[b] = true
+		if hasBarrier(b) {
+			return
+		}
+		for _, in := range b.Instrs {
+			if ret, ok := in.(*ssa.Return); ok {
+				out = append(out, ret)
+			}
+		}
+		for _, s := range b.Succs {
+			walk(s)
+		}
+	}
+	walk(fn.Blocks[0])
+	return out
 }
 
 // ---------------------------------------------------------------------------------------------
